@@ -68,6 +68,8 @@ def run(ctx):
             monitor_failures(ctx, res['fails'], findings, 'rustc history monitor', rp)
         res = sys_c05.codegen_options(os.path.join(ctx.work, 'sysg'), 'c05g')
         ctx.evaluations += res['requests']; ctx.cov['codegen_option_scenarios'] = res['codegen_scenarios']; monitor_failures(ctx, res['fails'], findings, 'rustc codegen-option scenarios', rp)
+        res = sys_c05.artifact_notifications(os.path.join(ctx.work, 'sysn'), 'c05n')
+        ctx.evaluations += res['requests']; monitor_failures(ctx, res['fails'], findings, 'rustc artifact notifications', rp)
         line, fails = sys_c05.extern_alias(os.path.join(ctx.work, 'sysa'), 'c05a')
         ctx.samples.append(line); monitor_failures(ctx, fails, findings, 'extern alias witness replay', rp)
     ctx.rules.append('framing: random OsString / String / PathBuf values through a write-only Hasher; system: histories over a crate with a module, include_str!, env! / option_env! of a plain, a CARGO_PKG_* and a CARGO_REGISTRIES_* variable (set / changed / unset, scripted first), a cfg feature and an extern rlib — '
